@@ -19,6 +19,10 @@ pub mod g {
     use crate::prelude::*;
     pub trait Bounds: sylvia::serde::Serialize + sylvia::serde::de::DeserializeOwned + std::fmt::Debug + Clone + sylvia::schemars::JsonSchema + 'static {}
     impl<X: sylvia::serde::Serialize + sylvia::serde::de::DeserializeOwned + std::fmt::Debug + Clone + sylvia::schemars::JsonSchema + 'static> Bounds for X {}
+    /// a concrete type that merely shares its name with the type parameter: written through a path it is not the parameter
+    pub mod other {
+        pub type @N@ = u64;
+    }
     pub mod ifc {
         use crate::prelude::*;
         #[interface]
@@ -48,7 +52,7 @@ pub mod g {
         #[sv::msg(sudo)]
         fn su(&self, ctx: SudoCtx, v: Option<@N@>) -> StdResult<Response> { Ok(Response::new()) }
         #[sv::msg(migrate)]
-        fn mig(&self, ctx: MigrateCtx) -> StdResult<Response> { Ok(Response::new()) }
+        fn mig(&self, ctx: MigrateCtx, w: crate::g::other::@N@) -> StdResult<Response> { Ok(Response::new()) }
         #[sv::msg(reply, reply_on=success)]
         fn on_done(&self, ctx: ReplyCtx, p: u32) -> StdResult<Response> { Ok(Response::new()) }
     }
